@@ -51,7 +51,7 @@ def _copy_of(f, l, target, depth=6):
 
 def run(ctx, progs):
     P = progs.get("default")
-    f = P.fn(FIN)
+    f = P.inlined(FIN, depth=1, keep=(KEYFN,))      # an extracted `skip buckets up to the after key` helper is read in place
     if not ctx.anchor("R30.a", f, "aggs::finalize_composite"):
         return
     ctx.saw(f)
